@@ -70,6 +70,26 @@ CLAIMED = {
          "DESIGN.md section 4, C12"),
 }
 
+# rules added in the second round (mutation-sweep and second wave of independent changes); appended to the level text
+ADD = {
+ "C01": " Round 2: the error of every section-time operation stops the operation (ERR-PROPAGATE) and a failed I/O step never falls through to the success path inside a resource (IO-ERR); every channel a resource or child returns is returned, awaited, asserted nil or collected and drained, a refused pre-commit is never overwritten (RES-JOIN, CS-ORDER join clauses, ASYNC-JOIN returned-channel-signalled); first-touch snapshots are taken once per section (SNAPSHOT-ONCE); Index hands out the stable, recorded child (RES-FORWARD).",
+ "C03": " Round 2: decision table of the operator library (OP-DECISION: which elements set operators keep, quantifier / CHOOSE / refinement polarity, floor-division and modulo adjustments, range and emptiness preconditions) compared with the CFG path conditions on every assignment of the guard atoms; iterators are created for the loop that consumes them (ITER-FRESH); unordered kinds hash commutatively (HASH-COMMUT).",
+ "C04": " Round 2: every state variable is saved into the frame in every iteration, the i-th argument is bound only while i < len(args), errors of the runtime operations used by Call/Return/TailCall stop them (CALL-ORDER clauses, ERR-PROPAGATE).",
+ "C05": " Round 2: decision table of value equality and vector clocks (VAL-DECISION), strings print through strconv.Quote (STR-QUOTE), gob decode loops use a fresh destination (GOB-FRESH), iterators are fresh (ITER-FRESH).",
+ "C06": " Round 2: a failed send/ack step never falls through (IO-ERR); every message of a received batch is kept (batch-conserved); the begin arm resets the buffer on every path; gob decode loops use a fresh destination.",
+ "C07": " Round 2: acquire sends / release receives the lock token on every path; GetState locks exactly when the sharer does not hold the lock.",
+ "C08": " Round 2 (RAFT-FIDELITY): the server archetypes of raftkvs.go, their table entries and operator definitions are, section by section, the image of raftkvs.tla (the SPEC-MATCH comparison restricted to the server side). The invariants are known for the model-checked specification and carry over only to an implementation that takes exactly its steps; this is the basis of the argument rather than a logical necessary condition, and client-side sections are deliberately ignored.",
+ "C11": " Round 2: decision table of the 2PC resource (TPC-DECISION, 42 rows: accept / reject / record / release / adopt / poison conditions of the acceptor, quorum arithmetic, version of outgoing requests, section entry/exit) compared with exact CFG path conditions; forward section states are never stored for a poisoned section and never across a mutex release (TPC-POISON); a failed Abort/Commit send always returns to the retry condition (TPC-RETRY).",
+ "C12": " Round 2: every component of every operand of Merge / compare is traversed (OPERAND-TRAVERSED); set writes are recorded unconditionally (WRITE-UNCOND); decode loops use a fresh destination (GOB-FRESH).",
+ "C13": " Round 2 (CRDT-SECTION, SNAPSHOT-ONCE): snapshot / restore / arm polarity, the write is applied, a tick is skipped only when the budget is spent, budget and reply handled only for successful calls, constructor starts broadcaster and merger, blocking hand-off to the merger.",
+ "C17": " Round 2: Stop's case analysis (request only while running; close only when not running, first time, flag set), the exit poll only after the previous outcome was dispatched, nested Close stops and collects unconditionally, a nested context signals 'stopped' on every exit.",
+ "C18": " Round 2: oldValueHint deposits through the armed receiver and disarms it; the recorder gets &oldValue exactly when the receiver was consumed; VClock.Merge folds one operand into the other (VCLOCK-MERGE); VAL-DECISION rows for VClock.",
+ "C19": " Round 2 (FD-WIRING): both setState functions store their argument, IsAlive answers with the recorded state exactly when one is recorded, the constructor starts the polling loop, a completed call's error is examined, ensureClient dials when needed.",
+}
+for k, v in ADD.items():
+    t = CLAIMED[k]
+    CLAIMED[k] = (t[0], t[1] + v, t[2], t[3])
+
 def main():
     here = os.path.dirname(os.path.dirname(os.path.abspath(__file__)))
     checks = []
